@@ -137,5 +137,36 @@ theorem tk_kinds (f t : Bool) (idx : Nat) :
     ∧ call (tkSem f t) 30 Rs.Gen.tk_kind [tokV idx] (xs := []) = .val (.ctor 940 [.ctor 942 [.nat idx]]) [] :=
   ⟨by kernel_rfl, by kernel_rfl⟩
 
+/-! #### small accessors of a red node -/
+
+/-- `data()` opens the node: its kind (root, or child of `parent`), its green node, its child slots -/
+def ndSem (isRoot : Bool) (nslots : Nat) : Sem :=
+  { Sem.none with
+    call := fun f args => if f == N.S.from_raw then (match args with | [k] => .ok (.ctor 940 [k]) .unit | _ => .unknown) else .unknown
+    meth := fun m recv args =>
+      match recv, args with
+      | .atom 6, [] =>
+        if m == N.data then
+          .ok (.strct [(N.field.kind, if isRoot then .ctor N.Kind.Root [.atom 0, .atom 0] else .strct [(N.field.parent, .atom 7), (N.field.index, .atom 0), (N.field.offset, .atom 0)]),
+                       (N.field.green, .ctor 950 []), (N.field.children, .ctor 951 [])]) recv
+        else if m == N.green then .ok (.ctor 950 []) recv
+        else if m == N.syntax_kind then .ok (.ctor 952 []) recv
+        else .unknown
+      | .ctor 950 [], [] => if m == N.kind then .ok (.ctor 953 []) recv else .unknown
+      | .ctor 951 [], [] => if m == N.len then .ok (.nat nslots) recv else .unknown
+      | _, _ => .unknown }
+
+/-- `kind()` converts the raw kind afresh on every call (`S::from_raw(self.syntax_kind())`) — nothing of the kind type is kept in
+    the tree (what `C08.kind_irrelevant` rests on); `syntax_kind()` is the green node's; `green()` is the stored green node;
+    `parent()` is `None` exactly for the root; `arity_with_tokens()` is the number of child slots -/
+theorem nd_accessors (r : Bool) (n : Nat) :
+    call (ndSem r n) 30 Rs.Gen.nd_kind [.atom 6] (xs := []) = .val (.ctor 940 [.ctor 952 []]) []
+    ∧ call (ndSem r n) 30 Rs.Gen.nd_syntax_kind [.atom 6] (xs := []) = .val (.ctor 953 []) []
+    ∧ call (ndSem r n) 30 Rs.Gen.nd_green [.atom 6] (xs := []) = .val (.ctor 950 []) []
+    ∧ call (ndSem r n) 30 Rs.Gen.nd_arity_with_tokens [.atom 6] (xs := []) = .val (.nat n) []
+    ∧ call (ndSem true n) 30 Rs.Gen.nd_parent [.atom 6] (xs := []) = .val vNone []
+    ∧ call (ndSem false n) 30 Rs.Gen.nd_parent [.atom 6] (xs := []) = .val (vSome (.atom 7)) [] := by
+  cases r <;> exact ⟨by kernel_rfl, by kernel_rfl, by kernel_rfl, by kernel_rfl, by kernel_rfl, by kernel_rfl⟩
+
 end Gen
 end Cst
